@@ -13,7 +13,8 @@ RULE = ('consistency: every line up to the bound over the 16-symbol alphabet "a*
         'open / close / self-closed tag with quoted, unquoted, boolean attributes} and right in {empty, " text", "</div>", and with look-ahead off a closing '
         'bracket or quote}; markup and stylesheet type; domain D1 must be exact, domain D2 is built to contain one of the two recorded heuristic patterns. '
         'Non-trivial = extract returned a result / A has an operator or bracket; distinct by (line, position, options)')
-ASSUMPTIONS = ['D1 = lines in which no ">" operator of A (outside [] and {}) is preceded by a blank-, quote-free run containing "=", and no quoted attribute value contains a bracket character',
+ASSUMPTIONS = ['tag names of the left context in D1 consist of letters, digits, `:` and `-` (names with `.` or `_` are the third recorded heuristic, D2/F3)',
+               'D1 = lines in which no ">" operator of A (outside [] and {}) is preceded by a blank-, quote-free run containing "=", and no quoted attribute value contains a bracket character',
                'A uses ASCII names, balanced brackets inside [...], balanced (possibly nested) braces inside {...}; stylesheet A has no commas, blanks, quotes or ${...} (function arguments cannot be extracted by design)',
                'an empty abbreviation (line of operators only) is a consistent result',
                'prefixes used in round trips do not occur inside A']
@@ -220,8 +221,9 @@ def d1_ok(line, a_start, a_end):
 
 
 LEFTS = ['', ' ', '\t', 'foo ', 'foo: ', 'some text ', 'lorem ipsum dolor sit amet, consectetur adipiscing elit, sed do ' * 3, '<div class="a b c d e f" id="x" data-k="v w" hidden>', '<div>', '<div class="x">', '</p>', '<br/>', '<input disabled>', 'text <b>', "<a title='q r'>",
-         '<ul id="a" data-b="c d">', '<img src="a.png" />', '<p hidden>', '</h1>', '<h2 class="x">', '<x1>', '<col-2 a1>', '</ns:t2>']
+         '<ul id="a" data-b="c d">', '<DIV CLASS="X Y">', '</P>', '<BR/>', '<Input Disabled>', '<svg:G a:b="c">', '<a\thref="x"\n>', '<p title=\'\'>', '<a b="1"c="2">', '<x-1y>', '<img src="a.png" />', '<p hidden>', '</h1>', '<h2 class="x">', '<x1>', '<col-2 a1>', '</ns:t2>']
 LEFTS_D2 = ['<a href=x>', '<div class=y id=z>', '<img src=a.png alt=b>']
+LEFTS_F3 = ['<x-1.y>', '<Foo.Bar>', '<x_y>', '</a.b>', '<my_tag k="v">', '<A.B />']       # tag names with `.` or `_`
 RIGHTS = ['', ' foo', '</div>', '\n']
 RIGHTS_NOLOOK = [']', ')', '}', '"', "'", ')]']
 CSS_A = ['p10', 'm10-20', 'bd1-s#f.5', 'c#fc0', 'p10+m20!', 'fz1.5e', '@kf', 'trf:r', 'd:ib', '$var10', 'w100%', 'lh1.5', 'm-10--20', 'pos:a+t0+l0',
@@ -272,6 +274,10 @@ def run_shard(desc, ctx):
                 else:
                     A2 = rng.choice(['a', 'ul>li', 'p.c']) + '[title="%s"]' % rng.choice([']', 'a]b', '(', '{x', 'f(', '}']) + rng.choice(['', '>b', '*2'])
                     mon.roundtrip(rng.choice(LEFTS), '', A2, rng.choice(RIGHTS), {}, 'd2', 'F2', 'roundtrip:d2')
+            if i % 9 == 2:
+                # F3: the left context is a complete tag whose NAME contains `.` or `_` (JSX member components, custom elements)
+                A2 = rng.choice(['a>b', 'ul>li*2', 'p.c', 'div#i>span{t}'])
+                mon.roundtrip(rng.choice(LEFTS_F3), '', A2, rng.choice(RIGHTS), {}, 'd2', 'F3', 'roundtrip:d2')
             # ---- stylesheet
             if i % 3 == 1:
                 A3 = rng.choice(CSS_A)
@@ -332,4 +338,18 @@ def _f2(rec):
     return A.endswith(got) and got != A and len(A) - len(got) > q >= 0
 
 
-CLASSIFIERS = {'C11-unquoted-attribute-run-taken-for-tag-end': _f1, 'C11-bracket-inside-quoted-value': _f2}
+def _f3(rec):
+    """is_html() knows tag names made of letters, digits, `:` and `-` only: after `<Foo.Bar>` / `<x_y>` the backward scan does not see a
+    tag and runs on into it.  Explains only D2/F3 cases whose result ends at the caret, ends with A and starts inside the left tag."""
+    c = rec['case']
+    if rec['kind'] != 'roundtrip-not-exact' or c.get('domain') != 'd2' or c.get('pattern') != 'F3':
+        return False
+    act = rec['detail'].get('actual')
+    if act is None:
+        return False
+    got, loc = act[0], act[1]
+    return got.endswith(c['A']) and got != c['A'] and 0 < loc < len(c['left']) and loc + len(got) == c['pos']
+
+
+CLASSIFIERS = {'C11-unquoted-attribute-run-taken-for-tag-end': _f1, 'C11-bracket-inside-quoted-value': _f2,
+               'C11-tag-name-with-dot-or-underscore-not-seen-as-tag': _f3}
